@@ -93,6 +93,8 @@ def gen_exec(rr, fail_p=0.25, durs=(0.3, 2.0, 8.0, 20.0), exits=EXITS_FAIL, laun
     e = {'dur': rr.choice(durs)}
     if launch_fail_p and rr.random() < launch_fail_p:
         e['launch_fail'] = rr.choice(['oserror', 'joblaunch', 'joblaunch', 'valueerror'])
+        if rr.random() < 0.35:
+            e['launch_fail_delay'] = rr.choice([2.0, 6.0, 12.0])
     e['exit'] = rr.choice(exits) if rr.random() < fail_p else 'Success'
     return e
 
